@@ -112,6 +112,8 @@ func (m *M) chanRecv(c ChanV, commaOk bool, t types.Type) Value {
 	return v
 }
 
+type goPark struct{}
+
 // selectOp: picks, by a free choice, one of the ready cases (recv on non-empty/closed channel, send with room);
 // default if present and nothing ready. Channels marked "symbolic ready" (aux flag) are always eligible.
 func (m *M) selectOp(f *Frame, in *ssa.Select) Value {
@@ -143,6 +145,11 @@ func (m *M) selectOp(f *Frame, in *ssa.Select) Value {
 			res[0] = smt.BVC(64, ^uint64(0))
 			res[1] = smt.False
 			return res
+		}
+		for i := len(m.st.Frames) - 1; i >= 0; i-- {
+			if m.st.Frames[i].IsGoRoot {
+				panic(goPark{})
+			}
 		}
 		panic(dropPath{why: "select blocks forever (no ready case)"})
 	}
